@@ -20,6 +20,10 @@ def run(ctx):
     V.v6_derived_constructors(ctx)
     V.v7_zeroes(ctx)
     V.v8_queries_do_not_mutate_constructor_state(ctx)
+    V.v10_param_map(ctx)
+    V.v11_provider_results_not_written(ctx)
+    ctx.floor("V10", 3)
+    ctx.floor("V11", 2)
     # products count through utils.compositions: its enumeration must be complete and within bounds
     from ..engines import sizecheck as SC
     SC.s0_compositions(ctx)
